@@ -27,6 +27,7 @@ type mcWriter struct {
 	failAt   int
 	short    bool
 	noYield  bool
+	once     bool // transient failure: only write number failAt is rejected
 	state    int
 	accepted int
 }
@@ -37,7 +38,7 @@ func (w *mcWriter) Write(p []byte) (int, error) {
 	}
 	*mc.W(&w.state, siteWriter)++
 	w.writes++
-	if w.failAt > 0 && w.writes >= w.failAt {
+	if w.failAt > 0 && (w.writes == w.failAt || (w.writes > w.failAt && !w.once)) {
 		if w.short && len(p) > 1 && w.writes == w.failAt {
 			w.buf.Write(p[:len(p)/2])
 			w.accepted += len(p) / 2
